@@ -583,6 +583,12 @@ func (w *watch) watch(fsw *fsnotify.Watcher, m *sync.Mutex, refresh func() error
 			}
 
 			m.Lock()
+			if w.watcher != watch || w.tracked == nil {
+				// We got stopped or replaced while we were waiting for
+				// the lock. This event is none of our business any more.
+				m.Unlock()
+				return
+			}
 			if event.Op == fsnotify.Remove && w.tracked[event.Name] {
 				w.update(dirErrors, event.Name)
 			} else if event.Op == fsnotify.Rename && w.tracked[event.Name] {
